@@ -9,7 +9,9 @@ RULE = ("exhaustive: 8 start orientations x every word of length <= 3 over {rota
         "flip_vertical} (8 x 259 words; the group closes at length 2), plus random words up to length 12; angles: every multiple of "
         "90 within +-3600 and its +-1 neighbours, i32::MIN/MAX and neighbours, random i32 (quick 10k, thorough 10^5), and "
         "position-weighted checksums of try_from_degree over whole ranges (quick +-70000, thorough additionally 10^6-wide "
-        "windows at both ends of i32); non-trivial = word length >= 2 / angle outside [0,270]")
+        "windows at both ends of i32); plus Displays (non-square panels, off-centre windows) whose current orientation is extended by random "
+        "words through the public API and set at run time, with pixel streams along and beyond both logical edges before and after: "
+        "decoded write history, confinement, reported state and controller address mode against the geometric specification; non-trivial = word length >= 2 / angle outside [0,270]")
 TRUSTED = ["Oracle/Spec.v spec_apply_gen: expected orientation decided by geometry on a 2x3 panel (unique among the 8)"]
 ASSUMPTIONS = []
 OPS = ["ORot D0", "ORot D90", "ORot D180", "ORot D270", "OFlipH", "OFlipV"]
@@ -24,6 +26,8 @@ def wrap_impl(case, impl):
             if len(parts) == 4:
                 return "OWordOut %s %s %s %s" % (parts[0], parts[1], parts[2], parts[3])
         return "BAD " + impl
+    if k == "display":
+        return "OProgOut " + impl
     if k == "angles":
         return "OAnglesOut " + impl
     return "OSumOut " + impl
@@ -45,6 +49,49 @@ def gen(rng, tier, info):
     for _ in range(300 if tier == "quick" else 3000):
         n = rng.range(4, 12)
         cases.append(word_case(rng, rng.below(4), rng.below(2), [rng.below(6) for _ in range(n)]))
+    # a Display whose orientation is extended by words at run time (Display::orientation() composed through the public
+    # API, then set_orientation), drawn on before and after: non-square panels, windows that are not centred in the
+    # framebuffer, pixel streams running along BOTH logical edges and beyond them
+    from props import drawgen, c02
+    models = [12, 11, 2, 0, 103, 104, 112, 107, 204, 212]
+    for k in range(400 if tier == "quick" else 4000):
+        pc, m, lw, lh, cmax = drawgen.config(rng, info, models=models, small=True)
+        o = pc["opts"]
+        if k % 3 == 0 and m["fw"] > 2 and m["fh"] > 2:      # decidedly off-centre window
+            o["w"], o["h"] = max(1, m["fw"] // 2), max(1, (2 * m["fh"]) // 3)
+            o["ox"], o["oy"] = rng.choice([0, m["fw"] - o["w"]]), rng.choice([0, m["fh"] - o["h"]])
+        cur = (o["rot"], o["mir"])
+
+        def edge_stream(cur):
+            w, h = (o["w"], o["h"]) if cur[0] in (0, 2) else (o["h"], o["w"])
+            ps = []
+            for x in sorted(set([0, 1, w // 2, w - 2, w - 1, w, w + 1, h - 1, h, h + 1, max(w, h) - 1, max(w, h)])):
+                if x >= 0:
+                    ps.append((x, 0, drawgen.color(rng, cmax)))
+                    ps.append((x, h - 1, drawgen.color(rng, cmax)))
+                    ps.append((0, x, drawgen.color(rng, cmax)))
+                    ps.append((w - 1, x, drawgen.color(rng, cmax)))
+            return ("di", ps), w, h
+        ops = []
+        if rng.chance(1, 2):
+            ops.append((-1, edge_stream(cur)[0]))
+        nwords = rng.range(1, 3)
+        for _ in range(nwords):
+            w = [rng.below(6) for _ in range(rng.range(1, 4))]
+            r2, m2 = cur
+            for x in w:
+                r2, m2 = vlib.compose_orient(r2, m2, x)
+            ops.append((-1, ("sow", w, r2, m2)))
+            cur = (r2, m2)
+            op, llw, llh = edge_stream(cur)
+            kind = rng.below(4)
+            ops.append((-1, op if kind <= 1 else drawgen.op_inbounds(rng, llw, llh, cmax) if kind == 2 else c02.op_any(rng, llw, llh, cmax, True)))
+        pc["ops"] = ops
+        pc["tags"] = ["display", "words%d" % nwords, "offset-window" if (o["ox"], o["oy"]) != (m["fw"] - o["w"] - o["ox"], m["fh"] - o["h"] - o["oy"]) else "centred"]
+        pc["nontrivial"] = True
+        c = vlib.pcase(pc)
+        c.coq = "OProg (%s)" % c.coq
+        cases.append(c)
     # angles
     angles = []
     for k in range(-40, 41):
@@ -78,3 +125,14 @@ def gen(rng, tier, info):
             cases.append(vlib.Case("anglesum %d %d" % (a, bnd), "OAngleSum %s %s" % (z(a), z(bnd)), "rb", tags=["anglesum"], nontrivial=True))
             a = bnd + 1
     return cases
+
+
+def shrink(case):
+    if case.tags and case.tags[0] == "display":
+        from props import drawgen
+        out = drawgen.shrink_prog(case)
+        for c in out:
+            c.coq = "OProg (%s)" % c.coq
+            c.tags = list(case.tags)
+        return out
+    return []
